@@ -138,8 +138,17 @@ func (e *Encoder) oblName(kind string) string {
 	return fmt.Sprintf("%s/%s#%d", e.fnName(), kind, k)
 }
 
-func (e *Encoder) fnName() string {
-	return e.fn.Pkg.Pkg.Name() + "." + e.fn.RelString(e.fn.Pkg.Pkg)
+func (e *Encoder) fnName() string { return qualName(e.fn) }
+
+// qualName: package name, or the package path inside the repository when the name alone is
+// ambiguous (pkg/kmsg/internal/kbin is a copy of pkg/kbin).
+func qualName(fn *ssa.Function) string {
+	p := fn.Pkg.Pkg
+	name := p.Name()
+	if strings.Contains(p.Path(), "/internal/") {
+		name = strings.TrimPrefix(p.Path(), "github.com/twmb/franz-go/")
+	}
+	return name + "." + fn.RelString(p)
 }
 
 func (e *Encoder) addObl(kind, text, pc, goal string) *Obligation {
